@@ -515,18 +515,24 @@ func (c *wsConn) handleResponse(frame frame) {
 		var chid uint64
 		if err := json.Unmarshal(frame.Result, &chid); err != nil {
 			log.Errorf("failed to unmarshal channel id response: %s, data '%s'", err, string(frame.Result))
-			return
+			// the request has been answered, with something that is not a channel
+			// id: the caller gets that as its outcome instead of waiting for ever
+			frame.Error = &JSONRPCError{
+				Code:    1,
+				Message: fmt.Sprintf("unmarshaling channel id response: %s", err),
+			}
+			frame.Result = nil
+		} else {
+			chanCtx, chHnd := req.retCh()
+
+			vhook("fe.resp.prechan", c, "id", frame.ID)
+			c.chanHandlersLk.Lock()
+			c.chanHandlers[chid] = &chanHandler{cb: chHnd}
+			vhook("fe.resp.chanreg", c, "ch", chid, "id", frame.ID)
+			c.chanHandlersLk.Unlock()
+
+			go c.handleCtxAsync(chanCtx, frame.ID)
 		}
-
-		chanCtx, chHnd := req.retCh()
-
-		vhook("fe.resp.prechan", c, "id", frame.ID)
-		c.chanHandlersLk.Lock()
-		c.chanHandlers[chid] = &chanHandler{cb: chHnd}
-		vhook("fe.resp.chanreg", c, "ch", chid, "id", frame.ID)
-		c.chanHandlersLk.Unlock()
-
-		go c.handleCtxAsync(chanCtx, frame.ID)
 	}
 
 	vhook("fe.resp.deliver", c, "id", frame.ID, "a", req.ready)
